@@ -100,10 +100,8 @@ def read_tables(ck):
     return inst, [(b, a) for (a, b) in std]  # mfront lists (source, target)
 
 
-def flag_dump(ck):
+def flag_dump(ck, exe):
     """names / stored types of the flags, from src/Material/FiniteStrainBehaviourTangentOperator.cxx"""
-    exe = ck.cxx("c23flags", ["C23/flags.cxx", vlib.REPO + "/src/Material/FiniteStrainBehaviourTangentOperator.cxx",
-                               vlib.REPO + "/src/Exception/ContractViolation.cxx"], opt="-O0")
     p = ck.run([exe])
     if p.returncode != 0:
         raise vlib.BuildError("flag dump program failed", p.stdout + p.stderr)
@@ -397,7 +395,11 @@ def run(ck):
         if p not in inst:
             ck.violation("table:mfront:%s<-%s" % p, "mfront's conversion table uses convert<%s,%s> which has no specialisation" % p,
                          {"pair": p}, False)
-    flags = flag_dump(ck)
+    bins = ck.cxx_many([
+        ("c23flags", ["C23/flags.cxx", vlib.REPO + "/src/Material/FiniteStrainBehaviourTangentOperator.cxx",
+                      vlib.REPO + "/src/Exception/ContractViolation.cxx"]),
+        ("c23trace", ["C23/trace.cxx", vlib.REPO + "/src/Exception/ContractViolation.cxx"])], opt="-O0")
+    flags = flag_dump(ck, bins["c23flags"])
     for row in flags:
         name, stype, ttype = row[0], row[1], row[2]
         exp = {"ST": "t2tost2", "SS": "st2tost2", "TT": "t2tot2"}.get(ref23.SHAPE.get(name, ""), None)
@@ -408,7 +410,7 @@ def run(ck):
             ck.violation("table:flagshape:" + name, "flag %s is stored as %s, the specification assumes %s" % (name, ttype, exp),
                          {"flag": name, "type": ttype}, False)
     # ---- 2. trace
-    tracer = ck.cxx("c23trace", ["C23/trace.cxx", vlib.REPO + "/src/Exception/ContractViolation.cxx"], opt="-O0")
+    tracer = bins["c23trace"]
     dag, units = t1.run_tracer(ck, tracer)
     by = {u.name: u for u in units}
     expected_units = ["N%d_%s" % (n, s) for n in (1, 2, 3) for s in STRESS_UNITS] + \
